@@ -28,7 +28,9 @@ RULE = (
     "duplicates, unknown paths and deleted files), hash_file, _get_hashes (direct, build of a file, build of "
     "the directory, build_entries), state.save, index build/md5/update on two index variables, each with "
     "caller-supplied (fsspec or dvc_data stat) or freshly read info, on the local or a memory file system, "
-    "for md5, md5-dos2unix, sha256. Non-trivial = at least one cache hit was served after at least one "
+    "for md5, md5-dos2unix, sha256; files may be symlinks to regular files outside the staged directory (write / "
+    "touch / replace then act on the link's target); staging routes also run with pool hashing forced (large-file "
+    "threshold 0, checksum_jobs 2 or 4, reads delayed so that earlier-submitted files complete later). Non-trivial = at least one cache hit was served after at least one "
     "mutation of the same file, or a foreign row / batch over 999 / index carry-over was involved."
 )
 ASSUMPTIONS = [
@@ -42,7 +44,11 @@ ASSUMPTIONS = [
     "reproduced on every run as the documented assumption (probe 'touch-back'), not a finding",
     "_checksum = injective pairing of (ino, mtime, size) (md5 of the printed list; recomputed independently "
     "for every row read back)",
-    "index level: flat directory of regular non-executable files on the local file system",
+    "index level: flat directory of regular non-executable files (or symlinks to such) on the local file system",
+    "stat information follows symbolic links (as fsutils._localfs_info and LocalFileSystem.info(str) do): the token "
+    "of a path is the (inode, mtime, size) of the file it resolves to; the staging walk supplies exactly that",
+    "hashing is per path: _get_hashes attaches to every path the digest of that path's bytes, whatever the order in "
+    "which pool workers are submitted and complete (the model has no pairing of a submission list with a result list)",
     "translated units (Gen/State.v: _checksum field list, State._get, HASH_VERSION, the non-local guards, "
     "SQLITE_MAX_VARIABLE_NUMBER, batched; Gen/IDiff.v: _diff_meta) are proved equal to the model's deciders "
     "(C13_tie_*) and validated against the real functions on enumerated arguments on every run; State._get is "
@@ -740,9 +746,12 @@ def gen_history(ctx, big=None):  # noqa: C901, PLR0912, PLR0915
         if r < 0.70:
             route = rng.choice(["direct", "direct", "build_file", "build_dir", "build_entries"])
             a = "md5" if route == "build_dir" else alg
-            return {"op": "get_hashes", "route": route, "alg": a,
-                    "fs": [rng.randrange(nfiles) for _ in range(rng.choice([1, 2, 3, 4]))],
-                    "dry": rng.random() < 0.7}
+            q = {"op": "get_hashes", "route": route, "alg": a,
+                 "fs": [rng.randrange(nfiles) for _ in range(rng.choice([1, 2, 3, 4]))],
+                 "dry": rng.random() < 0.7}
+            if route != "build_file" and rng.random() < 0.3:
+                q["pool"] = {"jobs": rng.choice([2, 4])}     # pool hashing, out-of-order completion
+            return q
         if r < 0.78:
             return {"op": "ibuild", "s": rng.choice("AB")}
         if r < 0.86:
@@ -770,7 +779,7 @@ def gen_history(ctx, big=None):  # noqa: C901, PLR0912, PLR0915
             alive.add(f)
             c = content(f)
             cur[f] = c
-            return {"op": "create", "f": f, "c": c}
+            return {"op": "mklink" if rng.random() < 0.25 else "create", "f": f, "c": c}
         r = rng.random()
         if r < 0.30:
             c = content(f, same_len=rng.random() < 0.6)
@@ -780,7 +789,7 @@ def gen_history(ctx, big=None):  # noqa: C901, PLR0912, PLR0915
         if r < 0.55:
             c = content(f, same_len=rng.random() < 0.7)
             cur[f] = c
-            return {"op": "replace", "f": f, "c": c, "mt": rng.choice(["same", "tick"])}
+            return {"op": "replace", "f": f, "c": c, "mt": rng.choice(["same", "tick"]), "target": rng.random() < 0.5}
         if r < 0.70:
             return {"op": "touch", "f": f}
         if r < 0.80:
@@ -797,7 +806,7 @@ def gen_history(ctx, big=None):  # noqa: C901, PLR0912, PLR0915
         if rng.random() < 0.85:
             alive.add(f)
             cur[f] = content(f)
-            ops.append({"op": "create", "f": f, "c": cur[f]})
+            ops.append({"op": "mklink" if rng.random() < 0.2 else "create", "f": f, "c": cur[f]})
     ops.append({"op": "memput", "f": rng.randrange(nfiles), "c": rng.choice(pal)})
     def index_block():
         """the carry-over scenario: build + md5 one index, mutate some files, rebuild the other, update it"""
@@ -877,6 +886,46 @@ CORPUS = [
         {"op": "imd5", "s": "B", "alg": "md5"}, {"op": "imd5", "s": "A", "alg": "md5-dos2unix"},
         {"op": "delete", "f": 2}, {"op": "imd5", "s": "B", "alg": "sha256"},
         {"op": "ibuild", "s": "A"}, {"op": "iupdate", "s": "A"}]},
+    # pool hashing in staging: >= 2 uncached "large" files in one directory, several workers, the first-submitted
+    # file finishes last; then every route must answer each path with the digest of ITS bytes
+    {"nfiles": 4, "ops": [
+        {"op": "create", "f": 0, "c": 1}, {"op": "create", "f": 1, "c": 9}, {"op": "create", "f": 2, "c": 5},
+        {"op": "create", "f": 3, "c": 12},
+        {"op": "get_hashes", "route": "build_dir", "alg": "md5", "fs": [], "dry": False, "pool": {"jobs": 4}},
+        {"op": "get", "p": [0], "info": None}, {"op": "get", "p": [1], "info": "dvc"},
+        {"op": "hash_file", "p": [2], "alg": "md5", "info": None}, {"op": "hash_file", "p": [3], "alg": "md5", "info": "fsspec"},
+        {"op": "get_many", "items": [["p", [0]], ["p", [1]], ["p", [2]], ["p", [3]]], "infos": [1, 3]},
+        {"op": "get_hashes", "route": "build_dir", "alg": "md5", "fs": [], "dry": True},
+        {"op": "write", "f": 0, "c": 2, "mt": "tick"}, {"op": "replace", "f": 1, "c": 10, "mt": "same"},
+        {"op": "touch", "f": 2},
+        {"op": "get_hashes", "route": "build_entries", "alg": "md5", "fs": [], "pool": {"jobs": 2}},
+        {"op": "get_many", "items": [["p", [0]], ["p", [1]], ["p", [2]]], "infos": []},
+        {"op": "write", "f": 2, "c": 6, "mt": "tick"}, {"op": "write", "f": 3, "c": 14, "mt": "tick"},
+        {"op": "write", "f": 0, "c": 1, "mt": "tick"},
+        {"op": "get_hashes", "route": "direct", "alg": "sha256", "fs": [3, 2, 0], "pool": {"jobs": 2}},
+        {"op": "hash_file", "p": [3], "alg": "sha256", "info": None}, {"op": "get", "p": [2], "info": None},
+        {"op": "get_hashes", "route": "direct", "alg": "sha256", "fs": [0, 2, 3]}]},
+    # a symlinked file in the staged directory: the token of the path is the token of the link's TARGET
+    # (info follows links, as _localfs_info does); in-place rewrite / replacement of the target between stagings
+    {"nfiles": 2, "ops": [
+        {"op": "mklink", "f": 0, "c": 1}, {"op": "create", "f": 1, "c": 5},
+        {"op": "get_hashes", "route": "build_dir", "alg": "md5", "fs": [], "dry": False},
+        {"op": "write", "f": 0, "c": 2, "mt": "tick"},            # target rewritten in place, same length
+        {"op": "get_hashes", "route": "build_dir", "alg": "md5", "fs": [], "dry": False},
+        {"op": "hash_file", "p": [0], "alg": "md5", "info": None},
+        {"op": "get_many", "items": [["p", [0]], ["p", [1]]], "infos": []},
+        {"op": "get_hashes", "route": "build_entries", "alg": "md5", "fs": []},
+        {"op": "replace", "f": 0, "c": 1, "mt": "same", "target": True},   # target replaced: only its inode moves
+        {"op": "get_hashes", "route": "build_dir", "alg": "md5", "fs": [], "dry": True},
+        {"op": "get_hashes", "route": "direct", "alg": "md5", "fs": [0, 1]},
+        {"op": "touch", "f": 0},
+        {"op": "get_hashes", "route": "build_dir", "alg": "md5", "fs": [], "dry": True, "pool": {"jobs": 2}},
+        {"op": "ibuild", "s": "A"}, {"op": "imd5", "s": "A", "alg": "md5"},
+        {"op": "write", "f": 0, "c": 2, "mt": "tick"},
+        {"op": "ibuild", "s": "B"}, {"op": "iupdate", "s": "B"}, {"op": "imd5", "s": "B", "alg": "md5"},
+        {"op": "replace", "f": 0, "c": 3, "mt": "tick"},          # the link itself replaced by a regular file
+        {"op": "get_hashes", "route": "build_dir", "alg": "md5", "fs": [], "dry": True},
+        {"op": "get", "p": [0], "info": "fsspec"}]},
     # foreign rows
     {"nfiles": 1, "ops": [
         {"op": "create", "f": 0, "c": 5},
@@ -1083,7 +1132,8 @@ def run_history(ctx, case):
 
 
 def nontrivial(flags):
-    return bool(flags & {"hit-after-mutation", "batch>999", "index-update-copied", "carried-hash-current"}
+    return bool(flags & {"hit-after-mutation", "batch>999", "index-update-copied", "carried-hash-current",
+                         "staging:pool>=2-uncached", "symlink-target-rewritten", "symlink-target-replaced"}
                 or any(f.startswith("foreign:") for f in flags))
 
 
